@@ -271,7 +271,7 @@ def alphabet(col, year):
         return [False, True]
     special = {
         "alter": [0, 1, 2, 3, 6, 13, 14, 17, 18, 24, 25, 26, 35, 55, 58, 62, 63, 64, 65, 66, 67, 70, 100],
-        "mietstufe": [1, 2, 3, 4, 5, 6, 7],
+        "mietstufe": [1, 2, 3, 4, 5, 6, 7] if year >= 2020 else [1, 2, 3, 4, 5, 6],
         "steuerklasse": [1, 2, 3, 4, 5, 6],
         "behinderungsgrad": [0, 20, 50, 100],
         "monate_elterngeldbezug": [0, 2, 12, 14],
@@ -464,7 +464,7 @@ def _age_ok(rows, i, new_age):
     return True
 
 
-def deviations(rows, year, reduced=False, cols=None, max_alts=None):
+def deviations(rows, year, reduced=False, cols=None, max_alts=None, individual=False):
     """Yield (row index, column, value, new rows): one valid single-attribute deviation each."""
     import copy
 
@@ -478,7 +478,7 @@ def deviations(rows, year, reduced=False, cols=None, max_alts=None):
                 alts = [alts[0], alts[len(alts) // 2], alts[-1]] if len(alts) > 3 else alts
             if max_alts is not None:
                 alts = alts[-max_alts:]
-            hh_level = col.endswith("_hh") or col in HH_LEVEL
+            hh_level = col.endswith("_hh") or (col in HH_LEVEL and not individual)
             if hh_level and any(x["hh_id"] == r["hh_id"] for x in rows[:i]):
                 continue  # once per household
             if t is bool and col in ADULT_ONLY_BOOL and not adult:
